@@ -270,7 +270,7 @@ Theorem C13_full_match_partial_wallet :
     (forall path, In path (c_paths cfg) ->
        forall p0 p1, wallet_parts path = Some (p0, p1) ->
          (forall l, parse p0 = Some l -> exists r, l = [r]) /\ (forall l, parse p1 = Some l -> exists r, l = [r]) /\
-         (has_suffix_dollar p1 = true -> forall ra, parse p1 = Some [ra] ->
+         (has_end_anchor p1 = true -> forall ra, parse p1 = Some [ra] ->
             forall b e s, lang ra b e s -> e = true)) ->
     (In id (admitted parse cfg offered) <->
      exists a, In a (c_universe cfg) /\ a_id a = id /\ In id offered /\
